@@ -266,6 +266,7 @@ type c02Plan struct {
 	readAcross  bool              // ... and is in the middle of doing so when the deadline fires
 	blockedRead bool              // ... from a body that never delivers: the handler is stuck in Read when the deadline fires
 	guard       bool              // the timeout guard stands between the handler and the client (buffering writer)
+	infoOther   bool              // ... with a 1xx code other than 100 / 102 / 103
 	info        bool              // the handler sends informational responses first
 	ctl         bool              // the handler uses Flush / ResponseController
 	push        bool              // the handler tries an HTTP/2 push
@@ -529,6 +530,9 @@ loop:
 		case "I":
 			// informational: says nothing about the final response (its own delivery is not judged)
 			p.info = true
+			if s.N != 100 && s.N != 102 && s.N != 103 {
+				p.infoOther = true
+			}
 		case "F", "RF":
 			p.ctl = true
 			if !p.guard {
@@ -900,7 +904,7 @@ func c02Valid(c c02Case) bool {
 						afterBlock = true
 					}
 				case "I":
-					if s.N != 100 && s.N != 102 && s.N != 103 {
+					if !c02ValidInfo(s.N) {
 						return false
 					}
 					seenWrite = true // keep header steps in front of everything that can send headers
@@ -1431,6 +1435,12 @@ func c02Judge(c c02Case, flat []c02Flat, obs []*c02Obs, maxCur []int32, cls map[
 		if p.guard && o.rec.flushes != 0 {
 			return fmt.Sprintf("%s: %d Flush calls reached the client while the timeout guard stood between handler and client (the response is committed before the guard releases it); got %s", who, o.rec.flushes, got)
 		}
+		if p.infoOther {
+			cls["informational-1xx-other-than-100/102/103"] = true
+			if p.guard && (p.panics || p.code != http.StatusOK) {
+				cls["informational-1xx-other-than-100/102/103+behind-guard+non-200-or-panic"] = true
+			}
+		}
 		if p.info {
 			cls["informational-1xx-first"] = true
 			if !p.guard {
@@ -1620,6 +1630,20 @@ func c02Judge(c c02Case, flat []c02Flat, obs []*c02Obs, maxCur []int32, cls map[
 
 // ---------------------------------------------------------------------------
 // generator
+
+func c02GenInfo(rt *rapid.T) int {
+	// any informational status: 100..199 except 101 (Switching Protocols is a final response); net/http forwards them all
+	if rapid.Bool().Draw(rt, "infocommon") {
+		return rapid.SampledFrom([]int{100, 102, 103, 103}).Draw(rt, "info")
+	}
+	n := rapid.SampledFrom([]int{104, 105, 110, 122, 150, 198, 199, 0}).Draw(rt, "infoother")
+	if n == 0 {
+		n = rapid.IntRange(104, 199).Draw(rt, "inforange")
+	}
+	return n
+}
+
+func c02ValidInfo(n int) bool { return n >= 100 && n <= 199 && n != 101 }
 
 func c02HasJwt(os []c02Opt) bool {
 	for _, o := range os {
@@ -1885,7 +1909,7 @@ func c02GenProg(rt *rapid.T, t int, canWait, instant, benign bool, readable int)
 			p = append(p, c02Step{K: "H", N: hk})
 		case "I":
 			infos++
-			p = append(p, c02Step{K: "I", N: rapid.SampledFrom([]int{100, 102, 103, 103}).Draw(rt, "info")})
+			p = append(p, c02Step{K: "I", N: c02GenInfo(rt)})
 		case "F", "RF", "RH", "RD", "PU":
 			p = append(p, c02Step{K: k})
 			flushed = flushed || k == "F" || k == "RF"
